@@ -46,7 +46,11 @@ def schema(draw, signing_bias=False, max_rules=7, mode='base'):
     """mode 'base'   : pattern names x/y/z, independent rules
        mode 'many'   : a pool of 14 pattern names, so that pattern numbers reach two digits
        mode 'family' : redefinitions with an identical name pattern, sibling rules sharing a prefix, rules referenced twice
+       mode 'twins'  : 'family' with the literals b, c replaced by 32=a, 33=a: components equal in value, different in type
     Each mode is driven by its own sub-check so that widening one does not thin out the others."""
+    twins = mode == 'twins'
+    if twins:
+        mode = 'family'
     named_pool = MANY_NAMED if mode == 'many' else NAMED
     n = draw(st.integers(2, max_rules)) if named_pool is NAMED else max_rules
     ids = ['#KEY', '#r0', '#r1', '#r2', '#r3', '#r4', '#r5'][:max(2, min(7, draw(st.integers(2, 6))))]
@@ -164,7 +168,20 @@ def schema(draw, signing_bias=False, max_rules=7, mode='base'):
                     [{'pat': by_num[hi], 'opts': [{'lit': draw(st.sampled_from(WORDS))}]}]
     for r in rules:
         del r['_idx']
+    if twins:
+        _relabel(rules, {'b': '32=a', 'c': '33=a'})
     return {'rules': rules}
+
+
+def _relabel(node, mapping):
+    if isinstance(node, dict):
+        if 'lit' in node and node['lit'] in mapping:
+            node['lit'] = mapping[node['lit']]
+        for v in node.values():
+            _relabel(v, mapping)
+    elif isinstance(node, list):
+        for v in node:
+            _relabel(v, mapping)
 
 
 def name_alphabet(sch):
